@@ -5,6 +5,7 @@ mako/codegen.py says *now*, as Lean constants:
 * `verifyDirMaxTries`  - the number of os.makedirs attempts after which util.verify_directory re-raises
 * `staleCmp`           - the comparison `os.stat(path)[ST_MTIME] <op> filemtime` of Template._compile_from_file
 * `missingCheck`       - `not os.path.exists(path) or ...` is present
+* `recordsFilenameVerbatim` - codegen records the template file name exactly as passed (`self.filename = filename`)
 * `fileRecheck`        - the re-check after loading also fires on `module._template_filename != filename`
 * `magicRecheck`       - the `module._magic_number != codegen.MAGIC_NUMBER` re-check after loading is present
 * `writerOps`          - the sequence of file-system primitives of the non-hook branch of _compile_module_file
@@ -359,6 +360,15 @@ def gen(repo):
     cg = open(repo + "/" + CODEGEN, encoding="utf-8").read()
     if '"_magic_number = %r" % MAGIC_NUMBER' not in cg:
         raise RegenError("codegen: `_magic_number = %r` % MAGIC_NUMBER is no longer emitted")
+    # the name recorded in the module is the name the Template was given: _CompileContext stores it unchanged
+    cgt = parse(repo, CODEGEN)
+    init = find_func(find_class(cgt, "_CompileContext", CODEGEN).body, "__init__", CODEGEN)
+    verbatim = None
+    for n in ast.walk(init):
+        if isinstance(n, ast.Assign) and len(n.targets) == 1 and dotted(n.targets[0]) == "self.filename":
+            verbatim = is_name(n.value, "filename")
+    if verbatim is None:
+        raise RegenError("codegen._CompileContext.__init__: no assignment to self.filename")
     tries = verify_dir_tries(repo)
     cmp_, missing, recheck, file_recheck, whole = staleness(repo)
     if '"_template_filename = %a" % self.compiler.filename' not in cg and '"_template_filename = %r" % self.compiler.filename' not in cg:
@@ -381,6 +391,8 @@ def gen(repo):
                "def magicRecheck : Bool := %s\n" % lean_bool(recheck))
     out.append("/-- the re-check also rewrites when `module._template_filename != filename` (generated from another file) -/\n"
                "def fileRecheck : Bool := %s\n" % lean_bool(file_recheck))
+    out.append("/-- `_CompileContext` keeps the template file name it is given unchanged; it is what `_template_filename` records -/\n"
+               "def recordsFilenameVerbatim : Bool := %s\n" % lean_bool(verbatim))
     out.append("/-- the default branch of `_compile_module_file`, primitive by primitive -/\n"
                "def writerOps : List WOp := [%s]\n" % ", ".join("." + o for o in ops))
     out.append("/-- the write is repeated until every byte is written (os.write's result is looked at) -/\n"
